@@ -19,15 +19,15 @@ CHECKS = {
          "For every (suite, version, EtM) triple the honest sender's records are captured and one attacker transformation is applied (bit flips at header/IV/body/tag positions, truncation, "
          "extension, splice, replay, swap, drop-then-continue, reflection, cross-connection, forged plaintext alert/CCS, unknown content type, empty record); the receiver must return exactly the "
          "data of the honest prefix and reject the first deviating record with a fatal alert seen by the peer, closed and non-resumable. A directly keyed RecordLayer is also fed by the reference "
-         "sender: every legal padding/inner padding is accepted bit-exactly, insider malformations (good MAC bad padding, bit flip behind maximal padding, correct MAC over a ciphertext too short for IV/padding/MAC, SSLv3 padding beyond one block, zero-only TLS 1.3 inner plaintext, wrong outer type, overflow) raise the documented exceptions. "
-         "During the handshake an unprotected alert/handshake/data record is spliced in at every position of the protected flight and must never be acted upon.",
+         "sender: every legal padding/inner padding is accepted bit-exactly, insider malformations (good MAC bad padding, bit flip behind maximal padding, correct MAC over a ciphertext too short for IV/padding/MAC, SSLv3 padding beyond one block, zero-only TLS 1.3 inner plaintext, wrong outer type, overflow) raise the documented exceptions; the same with both sequence-number counters started at 2^16-1 .. 2^63-1 (records on both sides of 2^32). "
+         "During the handshake an unprotected alert/handshake/data record is spliced in at every position of the protected flight and must never be acted upon; undecryptable records are skipped only within the 0-RTT budget and never after a protected record was read.",
          "in-memory transport; incomplete trailing records are 'blocked' (C17); reference sender validated in C09 self-test",
          "DESIGN.md §4 C02"),
  "C03": ("exploration",
          "property-based testing over a constructed settings lattice; oracle = view-vector equality + independent policy-containment model",
          "Pairs of HandshakeSettings restrictions (versions, ciphers, MACs, key exchanges, groups, signature lists, key-size windows, EtM/EMS, record_size_limit) x flavour (11 server key types, SRP, SRP+cert, anon) "
          "x client auth x ALPN/NPN/SNI are constructed with drawn relations (equal/nested/independent); completed handshakes must yield identical view vectors (version, suite, secrets, exporter output, EMS, EtM, ALPN/NPN, SNI, chains, SRP user) "
-         "and every negotiated parameter must lie in both raw policies per an independent model using the IANA table - also on a second connection that offers the first one's session after one side's policy was narrowed; failed handshakes must fail with an alert on at least one side and never one-sidedly complete.",
+         "and every negotiated parameter (incl. EMS / EtM flags for version ranges ending in SSLv3, PSK modes) must lie in both raw policies per an independent model using the IANA table - also on a second connection that offers the first one's session after one side's policy was narrowed; failed handshakes must fail with an alert on at least one side and never one-sidedly complete.",
          "own credential type enabled in own settings (caller precondition); settings.versions never set directly; private _send/_recv_record_limit attributes read for the record-limit agreement",
          "DESIGN.md §4 C03"),
  "C04": ("fault_enumeration",
@@ -41,7 +41,7 @@ CHECKS = {
          "fault enumeration site x corruption through a well-keyed deviant peer (real endpoint, wrapped send methods, substituted keys, re-signed proofs) with positive controls",
          "Every proof-of-possession site (ServerKeyExchange signature for RSA/ECDSA/EdDSA/DSA in TLS 1.0-1.2, client CertificateVerify, TLS 1.3 server/client CertificateVerify, post-handshake authentication, Finished, SRP proof, external PSK binder, Checker) "
          "is combined with each corruption (bit flip, proof by another key of the same type, proof replayed from another handshake, valid proof re-signed with a scheme the verifier did not offer, garbage, wrong password / unknown user / A mod N = 0, wrong PSK, flipped or re-attributed binder, wrong fingerprint); "
-         "degenerate signature values (DSA/ECDSA (1,0),(0,1),(q,.); RSA 0,1,n-1,n; zero EdDSA), an SRP attacker using the premaster that A = 0 mod N forces, a wrong Finished closing an otherwise valid post-handshake authentication, and a client identity carried in a declined ticket followed by a handshake without certificate; "
+         "degenerate signature values (DSA/ECDSA (1,0),(0,1),(q,.); RSA 0,1,n-1,n; zero EdDSA), an SRP attacker using the premaster that A = 0 mod N forces, a wrong Finished closing an otherwise valid post-handshake authentication, and a client identity carried in a declined ticket followed by a handshake without certificate or by an external PSK in the same hello; "
          "the verifier must fail with an alert and never complete with the identity attributed. Positive controls (honest run; valid re-signed proof with an offered scheme) make the negatives non-vacuous.",
          "omitted proof messages are C06; the deviant uses tlslite helper functions only as a signing/encoding convenience",
          "DESIGN.md §4 C05"),
@@ -49,13 +49,13 @@ CHECKS = {
          "fault enumeration over message traces: every single skip/duplicate/swap/insert/replace deviation of 12 honest handshake flavours replayed by a well-keyed deviant peer, judged by an independent order-legality model; drawn deviation pairs",
          "For each (flavour, deviant side) the honest trace (handshake messages + ChangeCipherSpec) is replayed with one deviation - all positions x {skip, duplicate, swap} and x {insert, replace} with a 14-message pool (incl. a zero-length application-data record), plus append(T) after completion, a key-changing message sharing its record with (the first bytes of) another message, and a stray handshake fragment in front of any message (inside and outside the sender's transcript) - the deviant's transcript "
          "following what it really sends (so Finished would verify if the victim swallowed the deviation). A type-level legality model classifies the sequence the honest endpoint receives; illegal or truncated handshake parts must never complete, "
-         "late illegal messages must kill the connection on the next read; post-handshake ClientHello/HelloRequest/ServerHello/Finished/CCS must never start a second handshake; handshake calls on an open connection must raise ValueError.",
+         "the abort alert must be on the wire (victim with closeSocket off); late illegal messages must kill the connection on the next read; post-handshake ClientHello/HelloRequest/ServerHello/Finished/CCS must never start a second handshake; handshake calls on an open connection must raise ValueError.",
          "order only: content validity of same-typed replacements is C04/C05; stalls count as not completed",
          "DESIGN.md §4 C06"),
  "C07": ("exploration",
          "differential interoperability testing against OpenSSL (stdlib ssl on memory BIOs) over an enumerated (role, version, suite, key) matrix plus Hypothesis-drawn options",
          "For every (tlslite role, TLS 1.0-1.3, suite in tlslite ∩ OpenSSL, server key type) and drawn options (group, client authentication, ALPN lists, resumption, HelloRetryRequest, OpenSSL default padded hello, payload sizes) the configuration is first shown to work OpenSSL<->OpenSSL (a tlslite<->tlslite failure of a matrix entry is a violation); "
-         "then tlslite-client<->OpenSSL-server and OpenSSL-client<->tlslite-server must complete, report the same version, cipher suite, ALPN protocol and session reuse, authenticate the client when asked, and carry multi-record payloads intact in both directions; a second connection attempts resumption.",
+         "then tlslite-client<->OpenSSL-server and OpenSSL-client<->tlslite-server must complete, report the same version, cipher suite, ALPN protocol and session reuse, authenticate the client when asked, and carry multi-record payloads intact in both directions; a second connection attempts resumption (also after the client widened its suite list); HelloRetryRequest is swept over OpenSSL hello sizes around its padding thresholds.",
          "OpenSSL randomness not seedable (configuration is the replay unit); SSLv3, SRP, external PSK, a negotiated record_size_limit (OpenSSL 3.0 ignores the extension; only that half is exercised), heartbeat, anon and TLS 1.3 CCM suites are outside what the stdlib API reaches",
          "DESIGN.md §4 C07"),
  "C08": ("exploration",
@@ -90,12 +90,12 @@ CHECKS = {
          "property-based testing (Hypothesis + enumerated grids) against a direct executable specification",
          "ct_check_cbc_mac_and_pad is compared with a direct RFC specification of MtE CBC bodies on enumerated grids "
          "(every padding length 0..255, every body length 0..330 in thorough, every MAC x version pair, 13 corruption classes) "
-         "plus Hypothesis-drawn cases; both directions (accepts all well-formed, rejects every single-byte corruption).",
+         "plus Hypothesis-drawn cases; both directions (accepts all well-formed, rejects every single-byte corruption); arguments stay untouched and a second call answers the same; the call site is exercised through a directly keyed RecordLayer, also beyond sequence number 2^32.",
          "functional behaviour only, no timing; reference MACs are stdlib hmac/hashlib; SSLv3 pad==block size counted as either",
          "DESIGN.md §4 C12"),
  "C13": ("exploration",
          "model-based stateful property testing: generated operation histories interpreted against real endpoints and a reference eligibility model",
-         "Histories of full handshakes (TLS 1.0/1.2/1.3; session cache and/or ticket keys; EMS/EtM/SNI/client-certificate options), closes (clean, fatal, abrupt, lost close_notify), clock movements on either side, ticket-key rotations, cache fills, ticket/id tampering (bit flip, truncation, garbage, foreign server, random id) "
+         "Histories of full handshakes (TLS 1.0/1.2/1.3; session cache and/or ticket keys; EMS/EtM/SNI/client-certificate options), closes (clean, fatal, abrupt, lost close_notify), clock movements on either side, ticket-key rotations, cache fills, server-chosen ticket_age_add values, ticket/id tampering (bit flip, truncation, garbage, foreign server, random id) "
          "and resume attempts with unchanged or changed offers are run against two real endpoints; 'resumed' is judged from the client flag and from the wire; a three-valued reference model decides eligibility: resumed only if eligible, forged/altered/expired/foreign/unknown never resume and never break the connection (full handshake completes), "
          "inconsistent offers never resume, resumed connections carry the original suite, EMS, EtM, server name and client identity, and a full handshake after a declined offer records only the identity presented in it.",
          "boundary ages and RFC-permitted alternatives are 'either'",
@@ -112,7 +112,7 @@ CHECKS = {
          "Well-formed encodings come from every handshake message sent in 16 real handshake flavours (harvested before protection, so encrypted-phase messages are included) and from create() with "
          "Hypothesis-drawn arguments for 18 message and 27 extension shapes. write(parse(b)) must equal b; every strict prefix, a byte appended inside or outside the outer length, and +-1 at every byte "
          "offset must raise a decode error or be itself well-formed (byte-identical re-encoding); oversize fields must make write() raise ValueError. Record headers, alerts, CCS, heartbeat, session-ticket payloads and SSLv2 messages are round-tripped at value level; "
-         "sequences of Parser calls are compared with a reference reader; re-used objects must write like fresh ones; delegated credentials are a codec of their own; empty vectors have known-answer encodings; libFuzzer campaigns (selector byte + bytes) record every input the oracle rejects and the check re-judges them in-process.",
+         "inner lengths reaching beyond their vector must be DecodeError; sequences of Parser calls are compared with a reference reader; re-used objects must write like fresh ones; delegated credentials are a codec of their own; empty vectors have known-answer encodings; libFuzzer campaigns (selector byte + bytes) record every input the oracle rejects and the check re-judges them in-process.",
          "message dispatch by type byte is out of scope (C06); NextProtocol padding content is opaque; record-layer framing is C14/C08",
          "DESIGN.md §4 C15"),
  "C16": ("exploration",
@@ -126,7 +126,7 @@ CHECKS = {
          "fault enumeration by stream offset on scripted sockets (EOF / ECONNRESET / EPIPE at every record boundary and header/body split of every flight, both endpoints, both directions) plus enumerated closure events in the data phase",
          "For 12 handshake flavours a fault-free run records both byte streams; the scripted socket then delivers/accepts exactly up to offset o and faults, for o over every record boundary, +1..+5, middle and last byte of every record x fault kind x endpoint x direction. "
          "The interrupted call must raise a socket/abrupt-close error (or the peer's queued alert), the connection be closed, no handshake reported complete, the session absent or non-resumable; the peer may complete only if it held the victim's complete last flight. "
-         "Data phase: close_notify / warning / fatal alert / EOF / EOF inside a record after k data records x closeSocket x ignoreAbruptClose: orderly close (close_notify at any alert level) gives empty reads, closed-connection error on write and a resumable session; truncation is never a clean end; fatal alerts surface with their description; close() waiting for the peer's close_notify with peer traffic in flight and a courtesy close_notify hitting a dead transport stay orderly. The peer aborting the handshake with an unprotected fatal alert at every record position where that is possible must surface as exactly that remote alert.",
+         "Data phase: close_notify / warning / fatal alert / EOF / ECONNRESET / EOF inside a record after k data records x closeSocket x ignoreAbruptClose: orderly close (close_notify at any alert level) gives empty reads, closed-connection error on write and a resumable session; truncation is never a clean end; fatal alerts surface with their description; close() waiting for the peer's close_notify with peer traffic in flight and a courtesy close_notify hitting a dead transport stay orderly. The peer aborting the handshake with an unprotected fatal alert at every record position where that is possible must surface as exactly that remote alert.",
          "sendall() is blocking-complete; TLS 1.3 'complete last flight' is located with the reference receiver (first record under application keys)",
          "DESIGN.md §4 C17"),
  "C18": ("exploration",
@@ -138,7 +138,7 @@ CHECKS = {
          "DESIGN.md §4 C18"),
  "C19": ("exploration",
          "property-based testing: snapshot purity/idempotence checks, enumerated out-of-domain values, and an under-approximating compatibility model vs real loopback handshakes",
-         "validate() is run on lattice-constructed settings with a deep snapshot before/after (also when it raises), validate(validate(s)) is compared field-wise, results may name only loaded back-ends; every documented field is set to "
+         "validate() is run on lattice-constructed settings with a deep snapshot before/after (also when it raises; the same snapshot comparison brackets every handshake), validate(validate(s)) is compared field-wise, results may name only loaded back-ends; every documented field is set to "
          "out-of-domain values (35 fields, 6 cross-field combinations) and must raise ValueError; settings pairs for which an independent under-approximating model finds a witness (highest common version, suite, group, signature scheme, key size) "
          "every listed suite pinned on both sides, and endpoints sharing an external PSK (two- or three-element configuration form, with or without a server certificate), a PSK mode, a suite of the PSK's hash and a group must complete a handshake.",
          "the compatibility model never counts unclassifiable pairs against the code; two listed-but-dead suites (0x40, 0x6A) are an open known finding",
